@@ -57,3 +57,34 @@ Theorem C13_trim_language : forall (S : SR) (m : wfsa S) (K1 K2 : list nat), clo
   forall xs, weight (wtrim K2 (wtrim K1 m)) xs = weight m xs.
 Proof. intros; apply trim_both_weight; assumption. Qed.
 Print Assumptions C13_trim_language.
+
+(* trim as the code computes it: the model of the two graph searches (model/TrimSearch.v: accessible = reached from the
+   initial states along arcs, epsilon arcs included; co-accessible = accessible in the reversed automaton; the kept set
+   is their intersection) computes exactly the states on a path from an initial state, resp. to a final state; the
+   resulting automaton gives EVERY string the weight the input gives it (any semiring, cyclic automata included, no
+   hypothesis), and every kept state lies on a path from an initial to a final state.  The state set of the
+   implementation's trim is compared with [active] in the correspondence run. *)
+From GV.model Require TrimSearch.
+From GV.proofs Require TrimSearchProofs.
+Theorem C13_trim_search : forall (S : SR) (m : wfsa S),
+  (forall xs, weight (TrimSearch.trim_model m) xs = weight m xs) /\
+  (forall q, In q (TrimSearch.accessible m) <-> exists e, In e (winit m) /\ TrimSearchProofs.path_to m (fst e) q) /\
+  (forall q, In q (TrimSearch.coaccessible m) <-> exists e, In e (wfinal m) /\ TrimSearchProofs.path_to m q (fst e)) /\
+  (forall q, In q (TrimSearch.active m) ->
+     (exists e, In e (winit m) /\ TrimSearchProofs.path_to m (fst e) q) /\ (exists e, In e (wfinal m) /\ TrimSearchProofs.path_to m q (fst e))) /\
+  (forall q, inb q (TrimSearch.coaccessible m) = false -> dead S m q).
+Proof.
+  intros S m.
+  split; [intros xs; exact (TrimSearchProofs.trim_model_weight S m xs)|].
+  split; [intros q; exact (TrimSearchProofs.accessible_spec S m q)|].
+  split; [intros q; exact (TrimSearchProofs.coaccessible_spec S m q)|].
+  split; [intros q Hq; exact (TrimSearchProofs.trim_model_states_useful S m q Hq)|].
+  intros q Hq; exact (TrimSearchProofs.not_coaccessible_dead S m q Hq).
+Qed.
+Print Assumptions C13_trim_search.
+
+Example C13_trim_search_nonvacuous :
+  TrimSearch.active TrimSearchProofs.ts_ex = [2; 1; 0] /\ length (warcs TrimSearchProofs.ts_ex) = 4 /\
+  length (warcs (TrimSearch.trim_model TrimSearchProofs.ts_ex)) = 2.
+Proof. vm_compute. repeat split. Qed.
+Print Assumptions C13_trim_search_nonvacuous.
